@@ -164,12 +164,22 @@ func vnetNormName(s string) string {
 var (
 	vnetZoneMu  sync.Mutex
 	vnetZone    = map[string][]net.IP{} // normalised name -> answers of the current hop
+	vnetAsked   = map[string]int{}      // "name/qtype" -> number of queries since the zone was set
 	vnetQueries int
+	vnetRebinds int
+)
+
+// DNS rebinding: within one hop the model's answer is given once per (name, type).  A guard that validates one
+// lookup and lets the dialer resolve the name again gets loopback addresses the second time.
+var (
+	vnetRebindA    = net.IP{127, 0, 0, 1}
+	vnetRebindAAAA = net.IP{0, 0, 0, 0, 0, 0, 0, 0, 0, 0, 0, 0, 0, 0, 0, 1}
 )
 
 func vnetSetZone(z map[string][]net.IP) {
 	vnetZoneMu.Lock()
 	vnetZone = z
+	vnetAsked = map[string]int{}
 	vnetZoneMu.Unlock()
 }
 
@@ -204,6 +214,14 @@ func vnetServeDNS(c net.Conn) {
 		vnetZoneMu.Lock()
 		ips, ok := vnetZone[name]
 		vnetQueries++
+		if ok {
+			k := fmt.Sprint(name, "/", qtype)
+			vnetAsked[k]++
+			if vnetAsked[k] > 1 {
+				vnetRebinds++
+				ips = []net.IP{vnetRebindA, vnetRebindAAAA}
+			}
+		}
 		vnetZoneMu.Unlock()
 		resp := append([]byte{}, q[:i]...)
 		resp[2], resp[3] = 0x81, 0x80
@@ -498,6 +516,7 @@ func vnetProbe(c vnetCase, hp vnetHop, guard vnetDialFunc) vnetProbeRec {
 			}
 		}
 	}
+	vnetSetZone(vnetHopZone(hp)) // the guard's lookup is the first one again
 	_, err := guard(ctx, "verifnet", net.JoinHostPort(hp.Host, "80"))
 	if err == nil {
 		rec.Err = "no error: a connection was made"
